@@ -27,10 +27,11 @@ SatPow(b, e) == IF e = 0 THEN 1 ELSE SatMul(SatPow(b, e - 1), b)
 
 ---------------------------------------------------------------------------
 (* geometry universe: rank 1..MaxRank, sizes 1..MaxSize with as many DISTINCT sizes as possible (a key *)
-(* checked against the wrong axis then leaves its range), every mask with at least one external axis  *)
-(* (a storage array without external axes is never built by pipefunc: don't care).                    *)
+(* checked against the wrong axis then leaves its range), every one of the 2^rank masks (pipefunc     *)
+(* itself never builds an array without external axes, but the classes are public and the property   *)
+(* quantifies over all masks).                                                                        *)
 Shapes(r) == {s \in [1..r -> 1..MaxSize] : Cardinality(Range(s)) = Min(r, MaxSize)}
-Masks(r)  == {m \in [1..r -> BOOLEAN] : \E k \in 1..r : m[k]}
+Masks(r)  == [1..r -> BOOLEAN]
 Geoms     == UNION {{Geom(s, m) : s \in Shapes(r), m \in Masks(r)} : r \in 1..MaxRank}
 
 RedAlphabet(n)  == {<<-1>>, <<N, N, N>>}
